@@ -1180,7 +1180,7 @@ package mq
 //@ func (*buffer).getAny
 //@   loop 0:
 //@     invariant $rejected > old($rejected) ==> b.err != nil                                #C09
-//@     invariant $rejected == old($rejected) ==> b.err == old(b.err)                        #C09
+//@     invariant old(b.err) != nil ==> b.err != nil                                         #C09
 //@     -- (d) an identifier that is neither in this call site's table nor User Property / Subscription Identifier is refused
 //@     latch !(haskey(fields, id) || id == 38 || id == 11) ==> b.err != nil                 #C09
 
